@@ -15,39 +15,13 @@ use super::*;
 use crate::common::deque::verif_deque as dq;
 use crate::common::frequency_sketch::verif_sketch as sk;
 use crate::verif_models::common::{instant_at, le};
-use std::hash::{BuildHasherDefault, Hasher};
+use std::hash::BuildHasherDefault;
 
-// ---------------------------------------------------------------- hashers
-pub(crate) trait HK: Hasher + Default + Clone {
-    fn h(k: u8) -> u64;
-}
-#[derive(Default, Clone)]
-pub(crate) struct IdH(u64);
-impl Hasher for IdH {
-    fn finish(&self) -> u64 { self.0 }
-    fn write(&mut self, b: &[u8]) { if !b.is_empty() { self.0 = b[0] as u64; } }
-    fn write_u8(&mut self, i: u8) { self.0 = i as u64; }
-}
-impl HK for IdH { fn h(k: u8) -> u64 { k as u64 } }
-/// every key collides
-#[derive(Default, Clone)]
-pub(crate) struct ConstH;
-impl Hasher for ConstH {
-    fn finish(&self) -> u64 { 0 }
-    fn write(&mut self, _b: &[u8]) {}
-}
-impl HK for ConstH { fn h(_k: u8) -> u64 { 0 } }
-
-// ---------------------------------------------------------------- value type
-/// `cls` selects the weight class (concrete where the shape needs concrete weights), `data` is payload.
-#[derive(Clone, Copy, PartialEq, Eq)]
-pub(crate) struct Val { pub cls: u8, pub data: u8 }
+pub(crate) use crate::verif_models::common::{ConstH, IdH, Val, HK, MAXN, W1, WT_A, WT_Z, YEARS_1000};
 
 type C<S> = Cache<u8, Val, BuildHasherDefault<S>>;
 type T = (u64, u32); // ghost time: seconds, nanoseconds since the harness origin
 
-pub(crate) const MAXN: usize = 4; // residents <= 3, plus one newcomer
-const YEARS_1000: u64 = 1_000 * 365 * 24 * 3600;
 
 #[derive(Clone, Copy)]
 pub(crate) struct Cfg {
@@ -89,7 +63,6 @@ pub(crate) const TCS: [Tc; 8] = [
     Tc { now: (40_000_000_000, 7), ttl: (YEARS_1000, 0), tti: (YEARS_1000, 0), la: [(10, 0), (8_464_000_000, 7), (30_000_000_000, 0), (0, 0)], lm: [(5, 0), (8_464_000_000, 7), (20_000_000_000, 0), (0, 0)] },
 ];
 
-pub(crate) const W1: [[u32; MAXN]; 2] = [[1; MAXN]; 2];
 
 /// ghost copy of the abstract state (pre-state, then turned into the expected post-state)
 #[derive(Clone, Copy)]
@@ -673,10 +646,6 @@ const WO_ID: [usize; MAXN] = [0, 1, 2, 3];
 const WO_REV2: [usize; MAXN] = [1, 0, 2, 3];
 const WO_REV3: [usize; MAXN] = [2, 1, 0, 3];
 const WO_ROT3: [usize; MAXN] = [1, 2, 0, 3];
-/// weight table with distinct non-unit weights: class 0 (residents) and class 1 (updates/newcomers)
-const WT_A: [[u32; MAXN]; 2] = [[3, 5, 2, 4], [7, 1, 6, 9]];
-/// zero weights and a heavy one
-const WT_Z: [[u32; MAXN]; 2] = [[0, 4, 0, 3], [5, 0, 4, 0]];
 
 const fn cfg(n: usize, cap: Option<u64>, weigher: bool, wt: [[u32; MAXN]; 2], ttl: bool, tti: bool, wo: [usize; MAXN], slots_rev: bool) -> Cfg {
     Cfg { n, cap, weigher, wt, ttl, tti, wo, slots_rev, tc: 0 }
@@ -878,5 +847,54 @@ fn k1_is_expired_entry_reads_the_entrys_own_nodes() {
     assert!(got == st.g.expired(j), "C05,C06: is_expired_entry(entry) <=> ttl or tti deadline of THAT entry passed at the current clock reading");
     kani::cover!(got, "expired");
     kani::cover!(!got, "live");
+    std::mem::forget(st);
+}
+
+// ================================================================================================
+// C17 helpers and lemmas on the size paths
+// ================================================================================================
+/// field-wise check of a freshly built cache (all private fields)
+pub(crate) fn assert_fresh<S: BuildHasher + Clone>(c: &Cache<u8, Val, S>, cap: Option<u64>, ttl: Option<Duration>, tti: Option<Duration>, weigher: bool) {
+    assert!(c.max_capacity == cap && c.time_to_live == ttl && c.time_to_idle == tti, "C17: configuration fields differ from the builder's knobs");
+    assert!(c.entry_count == 0 && c.weighted_size == 0 && c.cache.len() == 0, "C17: fresh cache holds something");
+    assert!(c.weigher.is_some() == weigher, "C17: weigher knob not honoured");
+    assert!(!c.frequency_sketch_enabled && c.expiration_clock.is_none(), "C17: fresh cache state");
+    assert!(dq::len(&c.deques.probation) == 0 && dq::len(&c.deques.write_order) == 0 && dq::len(&c.deques.window) == 0 && dq::len(&c.deques.protected) == 0, "C17: fresh deques not empty");
+    assert!(sk::is_empty(&c.frequency_sketch), "C17: fresh sketch not empty");
+}
+pub(crate) fn weigh_of<S>(c: &mut Cache<u8, Val, S>, k: u8, v: Val) -> u32 {
+    weigh(&mut c.weigher, &k, &v)
+}
+
+/// no max_capacity => the size paths are dead for every counter value
+#[kani::proof]
+#[kani::unwind(6)]
+fn c17_unbounded_never_evicts_for_size() {
+    let mut st = build::<IdH>(&cfg(0, None, false, W1, false, false, WO_ID, false));
+    st.c.weighted_size = kani::any();
+    st.c.entry_count = kani::any();
+    let cw: u32 = kani::any();
+    let ws: u64 = kani::any();
+    assert!(st.c.has_enough_capacity(cw, ws), "C17: a cache built without max_capacity must always have room");
+    assert!(st.c.weights_to_evict() == 0, "C17: a cache built without max_capacity never evicts for size");
+    assert!(!st.c.should_enable_frequency_sketch() || st.c.frequency_sketch_enabled, "C17: unbounded cache has no use for the sketch");
+    kani::cover!(true, "end reached");
+    std::mem::forget(st);
+}
+/// with max_capacity: has_enough_capacity <=> ws + w <= cap ; weights_to_evict = ws -. cap (all values)
+#[kani::proof]
+#[kani::unwind(6)]
+fn c04_capacity_arithmetic() {
+    let mut st = build::<IdH>(&cfg(0, Some(0), false, W1, false, false, WO_ID, false));
+    let cap: u64 = kani::any();
+    st.c.max_capacity = Some(cap);
+    let ws: u64 = kani::any();
+    kani::assume(ws < (1u64 << 63)); // weighted_size is a saturating sum of u32 weights of resident entries
+    st.c.weighted_size = ws;
+    let cw: u32 = kani::any();
+    assert!(st.c.has_enough_capacity(cw, ws) == (ws as u128 + cw as u128 <= cap as u128), "C04,C03: has_enough_capacity <=> weighted_size + weight <= max_capacity");
+    assert!(st.c.weights_to_evict() == if ws > cap { ws - cap } else { 0 }, "C04,C12: weights_to_evict = excess over max_capacity");
+    kani::cover!(ws + cw as u64 == cap, "exact fit");
+    kani::cover!(true, "end reached");
     std::mem::forget(st);
 }
